@@ -97,7 +97,9 @@ fn probes(i: usize) -> Vec<String> {
 }
 
 /// exit mode: 0 never, 1 on from the start, 2 turned on after the first site, 3 on then off before the first site
-fn build(sites: &[Site], exit_mode: u8, mode: RunMode, real_msg: &str) -> Built {
+/// `inc_prefix`: what an include directive puts in front of the included file's relative name (`./` for
+/// scripts run from a file; the absolute scratch directory for a script run from text)
+fn build(sites: &[Site], exit_mode: u8, mode: RunMode, real_msg: &str, inc_prefix: &str) -> Built {
     // file 0 is the script that holds the sites (or the main text); with FileIncluding file 1 is the
     // including root; every Included site adds its own file
     let mut files: Vec<(String, Vec<String>)> = vec![("main.ds".into(), vec![])];
@@ -234,7 +236,7 @@ fn build(sites: &[Site], exit_mode: u8, mode: RunMode, real_msg: &str) -> Built 
                 let fname = format!("sub/inc{}.ds", i);
                 files.push((fname.clone(), inc));
                 expect.push((msg.clone(), idx + 1, files.len() - 1));
-                files[0].1.push(format!("!include_files ./{}", fname));
+                files[0].1.push(format!("!include_files {}{}", inc_prefix, fname));
                 if exit_mode == 2 && i == 0 {
                     files[0].1.push("exit_on_error true".into());
                 }
@@ -264,8 +266,9 @@ pub fn bounds(tier: Tier) -> Value {
 }
 
 fn run_case(w: &mut Worker, sites: &[Site], exit_mode: u8, mode: RunMode, real_msg: &str) {
-    let b = build(sites, exit_mode, mode, real_msg);
-    let cj = json!({"sites": sites.iter().map(|s| json!([format!("{:?}", s.ctx), s.kind, s.blanks])).collect::<Vec<_>>(), "exit_mode": exit_mode, "mode": format!("{:?}", mode),
+    let inc_prefix = if mode == RunMode::Text { format!("{}/", w.scratch.join("c10").to_string_lossy()) } else { "./".to_string() };
+    let b = build(sites, exit_mode, mode, real_msg, &inc_prefix);
+    let cj = json!({"sites": sites.iter().map(|s| json!([format!("{:?}", s.ctx), s.kind, s.blanks])).collect::<Vec<_>>(), "exit_mode": exit_mode, "mode": format!("{:?}", mode), "inc_prefix": inc_prefix,
         "files": b.files.iter().map(|(n, t)| json!({"name": n, "text": t})).collect::<Vec<_>>()});
     w.begin(|| cj.clone());
     let slot = w.watch_slot();
@@ -310,8 +313,20 @@ fn execute(b: &Built, exit_mode: u8, mode: RunMode, scratch: &std::path::Path, s
         *s.halt.lock().unwrap() = Some(h);
     }
     let mut paths: Vec<String> = vec![];
+    let has_included = b.files.iter().any(|(n, _)| n.starts_with("sub/"));
     let result = match mode {
-        RunMode::Text => runner::run_script(&b.files[0].1, ctx, Some(env)),
+        RunMode::Text => {
+            if has_included {
+                // the text names its included files by absolute path
+                let _ = std::fs::remove_dir_all(&dir);
+                std::fs::create_dir_all(dir.join("sub")).map_err(|e| ("harness-io".to_string(), e.to_string()))?;
+                for (n, t) in &b.files {
+                    std::fs::write(dir.join(n), t).map_err(|e| ("harness-io".to_string(), e.to_string()))?;
+                    paths.push(dir.join(n).to_string_lossy().to_string());
+                }
+            }
+            runner::run_script(&b.files[0].1, ctx, Some(env))
+        }
         _ => {
             let _ = std::fs::remove_dir_all(&dir);
             std::fs::create_dir_all(dir.join("sub")).map_err(|e| ("harness-io".to_string(), e.to_string()))?;
@@ -326,7 +341,13 @@ fn execute(b: &Built, exit_mode: u8, mode: RunMode, scratch: &std::path::Path, s
     // expected source text per file index
     let source_of = |fi: usize| -> String {
         match mode {
-            RunMode::Text => String::new(),
+            RunMode::Text => {
+                if fi == 0 {
+                    String::new()
+                } else {
+                    std::fs::canonicalize(&paths[fi]).map(|p| p.to_string_lossy().to_string()).unwrap_or_default()
+                }
+            }
             RunMode::File => {
                 if fi == 0 {
                     paths[0].clone()
@@ -356,11 +377,6 @@ fn execute(b: &Built, exit_mode: u8, mode: RunMode, scratch: &std::path::Path, s
         }
         _ => None,
     };
-    let has_included = b.files.iter().any(|(n, _)| n.starts_with("sub/"));
-    if mode == RunMode::Text && has_included {
-        // a text run has no directory to resolve the include against: the generator does not produce this
-        return Err(("harness".into(), "included site in a text run".into()));
-    }
     match (result, fatal) {
         (Ok(c), None) => {
             let vars: BTreeMap<String, String> = sorted_vars(&c.variables);
@@ -451,9 +467,6 @@ pub fn worker(w: &mut Worker) {
     let mut go = |w: &mut Worker, sites: &[Site]| {
         for exit_mode in 0..4u8 {
             for mode in modes {
-                if mode == RunMode::Text && sites.iter().any(|s| s.ctx == Ctx::Included) {
-                    continue;
-                }
                 if w.take() {
                     run_case(w, sites, exit_mode, mode, &real_msg);
                 }
@@ -496,7 +509,14 @@ pub fn replay(case: &Value) -> Result<String, String> {
     let ctx = sdk_context();
     let (env, _o, _e, _h) = quiet_env();
     let r = match case["mode"].as_str().unwrap_or("Text") {
-        "Text" => runner::run_script(&files[0].1, ctx, Some(env)),
+        "Text" => {
+            // included files are named by absolute path: point them at the replay directory
+            let text = match case["inc_prefix"].as_str() {
+                Some(pre) if pre.starts_with('/') => files[0].1.replace(pre, &format!("{}/", dir.to_string_lossy())),
+                _ => files[0].1.clone(),
+            };
+            runner::run_script(&text, ctx, Some(env))
+        }
         "File" => runner::run_script_file(&dir.join("main.ds").to_string_lossy(), ctx, Some(env)),
         _ => runner::run_script_file(&dir.join("root.ds").to_string_lossy(), ctx, Some(env)),
     };
@@ -513,7 +533,7 @@ pub fn crash_sig(_case: &Value, kind: &str) -> String {
     kind.to_string()
 }
 
-pub const RULE: &str = "programs: every sequence of 1..k error sites, each site = context {top level, function body, for body, while body, if branch, else branch, inside a script-implemented library command, included file, a function called from a loop, a loop inside a function} x error kind {trigger_error, assert_error with a message containing a space, a real failing command, a message containing the literal text ${x}, a failing script-implemented command} x lines in front of the site {none, a blank line, blank + comment, `set_error` + an `exit_on_error` query (statements that touch the error record and the mode without being errors)}; each site assigns an output variable and is followed by get_last_error / get_last_error_line / get_last_error_source probes; x exit_on_error schedule {never, on from the start, turned on after the first site, on then off before the first site} x run mode {text, file, file that includes the file with the sites}. Oracle (error protocol): output variable 'false'; message, 1-based line and source file of the instruction the runner was executing (the caller's line for the script-implemented command, the included file's own path and line for included code); the latest error wins; the script reaches its last line and the enclosing blocks go on as written (a for body with two elements and a while body run twice, the else branch of an if whose then-branch failed does not run); under exit_on_error the run fails with Runtime(message, line, source) of the first error after it was turned on. evaluations = programs run";
+pub const RULE: &str = "programs: every sequence of 1..k error sites, each site = context {top level, function body, for body, while body, if branch, else branch, inside a script-implemented library command, included file, a function called from a loop, a loop inside a function} x error kind {trigger_error, assert_error with a message containing a space, a real failing command, a message containing the literal text ${x}, a failing script-implemented command} x lines in front of the site {none, a blank line, blank + comment, `set_error` + an `exit_on_error` query (statements that touch the error record and the mode without being errors)}; each site assigns an output variable and is followed by get_last_error / get_last_error_line / get_last_error_source probes; x exit_on_error schedule {never, on from the start, turned on after the first site, on then off before the first site} x run mode {text (included files named by absolute path), file, file that includes the file with the sites}. Oracle (error protocol): output variable 'false'; message, 1-based line and source file of the instruction the runner was executing (the caller's line for the script-implemented command, the included file's own path and line for included code); the latest error wins; the script reaches its last line and the enclosing blocks go on as written (a for body with two elements and a while body run twice, the else branch of an if whose then-branch failed does not run); under exit_on_error the run fails with Runtime(message, line, source) of the first error after it was turned on. evaluations = programs run";
 pub const ASSUMPTIONS: &[&str] = &["the message of the real failing command is taken from running that command alone (differential)", "failing commands are not placed in condition position (an error raised by a condition is outside the property)"];
 pub const EXHAUSTIVE: bool = true;
 pub const WALL_CAP_S: (u64, u64) = (55, 1500);
